@@ -113,7 +113,8 @@ Proof.
     apply safe_bind; [apply safe_lift|]. intros s0. apply safe_bind; [|intros _; apply IH].
     destruct (fst s0).
     + destruct (is_last c ti || negb (has_active sb)); [apply safe_vote_loop|apply Hn].
-    + apply safe_vote_loop.
+    + intros w r w' H. unfold nack_vote in H. apply fatalize_inv in H. destruct H as [r0 [H _]].
+      eapply safe_vote_loop; eauto.
     + apply safe_bind; [apply safe_lift|]. intros sb'. apply safe_bind; [apply safe_lift|]. intros nx. apply Ha.
     + destruct (is_last c ti || negb (has_active sb)); [apply safe_vote_loop|apply Hn].
 Qed.
